@@ -21,7 +21,7 @@ ASSUMPTIONS = ['tolerance 1e-4 s on spacing', 'the start sequence is the interva
 
 TRIGGERS = ['boot', 'start-all', 'restart-glob-all', 'start-glob-two', 'restart-glob-two']
 WCOMBOS = [(0.0, 0.0, 0.0), (0.25, 0.0, 0.5), (0.5, 0.25, 0.25)]
-NS = (2, 1, 2)
+NS = (3, 1, 2)
 TOL = 1e-4
 
 
@@ -48,7 +48,7 @@ def bound(tier, scn):
 
 
 def bounds(tier):
-    return {'watchers': 3, 'priorities': '{0,1,2}^3', 'numprocesses': NS, 'warmup_combos': WCOMBOS, 'global_warmup': [0, 1],
+    return {'watchers': 3, 'priorities': '{0,1,2}^3', 'numprocesses': NS, 'spawn_duration_of_a': 0.03, 'warmup_combos': WCOMBOS, 'global_warmup': [0, 1],
             'triggers': TRIGGERS, 'deaths': '<=1 on the sub-grid'}
 
 
@@ -61,6 +61,13 @@ def run(scn, ch):
         kw = dict(numprocesses=NS[i], warmup_delay=ws[i], priority=scn.pr[i], graceful_timeout=0.1)
         if nm == 'c' and not scn.auto_c:
             kw['autostart'] = False
+        if nm == 'a':
+            # process creation takes time: an after_spawn hook that needs 30 ms (the warmup pacing subtracts it)
+            def slow_hook(watcher, arbiter, hook_name, **kw2):
+                import time
+                time.sleep(0.03)
+                return True
+            kw['hooks'] = {'after_spawn': (slow_hook, False)}
         specs.append(WSpec(nm, **kw))
     world = World(ch, specs, arbiter_kw={'warmup_delay': scn.gw})
     win = Window(world)
